@@ -15,20 +15,20 @@ View == St
 (* evaluated exactly once per explored state (a stuttering step) *)
 MObs == PrintT(ToJson([st |-> St, obs |-> Obs])) /\ UNCHANGED vars
 MInit == Init /\ PrintT(ToJson([init |-> St]))
-MSeedReq(r, wp) == SeedReq(r, wp) /\ PrintT(ToJson(
-    [src |-> St, act |-> [n |-> "SeedReq", r |-> r, wanted |-> Wanted(wp)], out |-> Upstream(r, wp), dst |-> St']))
+MSeedReq(r, w) == SeedReq(r, w) /\ PrintT(ToJson(
+    [src |-> St, act |-> [n |-> "SeedReq", r |-> r, wanted |-> WL(w)], out |-> UpstreamList(r, w), dst |-> St']))
 MSeedResp(r, i) == SeedResp(r, i) /\ PrintT(ToJson(
     [src |-> St, act |-> [n |-> "SeedResp", r |-> r, grant |-> T(r, i)], out |-> Viewer(r, T(r, i)), dst |-> St']))
 MRegisterTemp(r, u) == RegisterTemp(r, u) /\ PrintT(ToJson(
     [src |-> St, act |-> [n |-> "RegisterTemp", r |-> r, u |-> u], out |-> 0, dst |-> St']))
-MRegisterProxy(r) == RegisterProxy(r) /\ PrintT(ToJson(
-    [src |-> St, act |-> [n |-> "RegisterProxy", r |-> r], out |-> OutRegisterProxy(r), dst |-> St']))
+MRegisterProxy(r, n) == RegisterProxy(r, n) /\ PrintT(ToJson(
+    [src |-> St, act |-> [n |-> "RegisterProxy", r |-> r, name |-> n], out |-> OutRegisterProxy(r, n), dst |-> St']))
 MResolveTemp(q) == ResolveTemp(q) /\ PrintT(ToJson(
     [src |-> St, act |-> [n |-> "Resolve", q |-> q], out |-> OutResolve(q), dst |-> St']))
-MNext == \/ \E r \in Regions : \/ \E wp \in BOOLEAN : MSeedReq(r, wp)
-                               \/ \E i \in 1..8 : MSeedResp(r, i)
+MNext == \/ \E r \in Regions : \/ \E w \in 1..7 : MSeedReq(r, w)
+                               \/ \E i \in 1..9 : MSeedResp(r, i)
                                \/ \E u \in TempUrls(r) : MRegisterTemp(r, u)
-                               \/ MRegisterProxy(r)
+                               \/ \E n \in PONameSet : MRegisterProxy(r, n)
          \/ \E q \in TempReqs : MResolveTemp(q)
          \/ MObs
 MSpec == MInit /\ [][MNext]_vars
